@@ -501,6 +501,30 @@ def run(world, rep, tier, only=None):
         rep.ob("C09.z", site(pe, "no extent is rewritten on the way to the insertion of the right half#%d" % i), not before,
                "ext2fs_extent_replace() calls that dominate ext2fs_extent_insert() within one turn of the loop: %s" % [r_.line for r_ in before])
 
+    # ------------------------------------------------------------------ C09.ab a new size always clears the rest of its last block
+    # ext2fs_file_set_size2() on an ordinary file records the size, zeroes the last block behind it and punches the
+    # blocks beyond.  The zeroing belongs to every size, not only to one that frees blocks: a shrink inside the last
+    # block followed by growth would otherwise show the old bytes again.  Behind the recording of the size no path
+    # returns success without ext2fs_file_zero_past_offset().
+    fss = prog.fn("ext2fs_file_set_size2", "lib/ext2fs/fileio.c")
+    pun = calls_to(fss, "ext2fs_punch")
+    zpo = calls_to(fss, "ext2fs_file_zero_past_offset")
+    szs = [c for c in calls_to(fss, "ext2fs_inode_size_set") if any(p_ in fss.reach(fss.after(c)) for p_ in pun)]
+    rep.floor("C09.ab size recorded on the way to ext2fs_punch in ext2fs_file_set_size2", len(szs), 1)
+
+    def ab_edge(nn, si, m, _f=fss):
+        lit = _f.literal(nn.bid)
+        if lit and T.path(T.strip(lit[0])) == "retval":
+            truth = lit[1] if si == 0 else (not lit[1])
+            return not truth                      # the error returns
+        return True
+    for i, c in enumerate(szs):
+        r = fss.reach(fss.after(c), avoid=zpo, edge_ok=ab_edge)
+        early = sorted(n.line for n in r if n.ev and n.ev["e"] == "R")
+        rep.ob("C09.ab", site(fss, "the last block is cleared behind every new size#%d" % i), bool(zpo) and not early,
+               "from ext2fs_inode_size_set() (line %d) no successful return is reached without ext2fs_file_zero_past_offset(): %s" %
+               (c.line, early))
+
     # ------------------------------------------------------------------ C09.aa a failed mapping gives back only what it allocated
     # extent_bmap() maps a new block either into a cluster the file already owns (bigalloc: implied allocation) or into
     # a freshly allocated one.  When recording the mapping fails, only the fresh one is given back: releasing an implied
